@@ -61,9 +61,7 @@ theorem ginv_findOrCreateTable (w : World) (issued live : List Entity) (G : GInv
   have i1 : IdxInv (w.findOrCreateTable start add rem target).1 := SameRows.idxInv s1 G.k.node.tnode G.k.idx
   obtain ⟨free, hL⟩ := G.link
   refine ⟨⟨⟨n1, g1, i1, t1⟩, hS1, d1, b1, ?_, free, ?_⟩, s1, m1, hframe1⟩
-  · have h0 := hframe1 0 G.root.size G.root.active
-    exact ⟨Nat.lt_of_lt_of_le G.root.size s1.tsize, by rw [SameRows.tableMask_eq s1 G.k.node.tnode 0 G.root.size]; exact G.root.mask,
-      by rw [h0]; exact G.root.active, by rw [h0]; exact G.root.target⟩
+  · exact ⟨Nat.lt_of_lt_of_le G.root.size s1.tsize, by rw [SameRows.tableMask_eq s1 G.k.node.tnode 0 G.root.size]; exact G.root.mask⟩
   · exact linv_transfer G.k m1.pool m1.index m1.flags (fun t r hv => SameRows.rowAt_eq s1 t r hv.1) hL
 
 /-- **createEntity** keeps the global invariant, the new handle joining `issued` and `live` -/
@@ -76,7 +74,6 @@ theorem ginv_createEntity (w : World) (issued live : List Entity) (G : GInv w is
   refine ⟨k, s, ds.dinv G.d, binv_of_dsame ds G.b, ?_, free', l⟩
   have hmask : (w.createEntity t).1.tableMask 0 = w.tableMask 0 := by
     unfold tableMask nodeOfTable nodeOf; rw [(hf 0).2.2, hn]
-  exact ⟨by rw [hsz]; exact G.root.size, by rw [hmask]; exact G.root.mask, by rw [(hf 0).2.1]; exact G.root.active,
-    by rw [(hf 0).1]; exact G.root.target⟩
+  exact ⟨by rw [hsz]; exact G.root.size, by rw [hmask]; exact G.root.mask⟩
 
 end Arche.GInv
